@@ -8,7 +8,7 @@ import ast
 
 from .. import astutil as A
 from ..fa import FA
-from .valeq import check_typed_identity
+from .valeq import check_typed_identity, check_json_bytes, check_enum_distinct
 from .ladders import extract_ladder, check_ladder_order, repo_subclass_pairs
 
 MC = "serialization.MementoCodec"
@@ -58,6 +58,41 @@ def _ctor_params(ck, cls_qual):
     init = ck.repo.find_method(cls, "__init__")
     ck.need(init is not None, "%s.__init__ not found" % cls_qual)
     return [p for p in init.params if p != "self"]
+
+
+def check_versioned_key_codec(ck, R4):
+    ev = FA(ck, MC + ".encode_versioned_data_source_key")
+    dv = FA(ck, MC + ".decode_versioned_data_source_key")
+    fm = [c for c in ev.calls("format")]
+    ok4 = len(fm) == 1 and A.const_str(A.call_recv(fm[0])) == "{}#{}" and [A.norm(a) for a in fm[0].args] == ["content_key.key", "content_key.version"]
+    ck.ob(R4, ev.key(None, "join"), ok4, "key#version" if ok4 else "versioned keys are not written as '{}#{}'.format(key, version)", ev.where())
+    rf = [c for c in dv.calls("rfind")]
+    ok5 = len(rf) == 1 and A.const_str(rf[0].args[0]) == "#" and not dv.calls("find") and not dv.calls("split")
+    ctor = [c for c in dv.calls("VersionedDataSourceKey")]
+    ok5 = ok5 and len(ctor) == 1 and A.norm(A.kwarg(ctor[0], "key")) == "state[0:hash_index]" and A.norm(A.kwarg(ctor[0], "version")) == "state[hash_index + 1:]"
+    ck.ob(R4, dv.key(None, "split-last"), ok5, "split at the last '#': the key part may itself contain '#' (versions in qualified names)" if ok5 else
+          "versioned keys are not split at the last '#': a key containing '#' is cut in the wrong place", dv.where())
+    none_ok = any(A.norm(i.test) == "content_key is None" for i in ev.stmts(ast.If)) and any(A.norm(i.test) == "state is None" for i in dv.stmts(ast.If))
+    ck.ob(R4, ev.key(None, "none"), none_ok, "a missing content key round-trips as null" if none_ok else "None content keys are not passed through", ev.where())
+
+
+
+def check_decoders_pure(ck, R):
+    """Every decoder is a function of the encoded state alone (cls, state): a decoder that can be
+    handed a pre-resolved value lets a caller substitute something that the state does not say."""
+    cls = ck.repo.cls(MC)
+    for name, m in cls.methods.items():
+        if name.startswith("decode_"):
+            ps = [p for p in m.params if p not in ("cls", "self")]
+            ok = len(ps) == 1
+            ck.ob(R, m.qual + "::signature", ok, "%s(state)" % name if ok else
+                  "%s takes %s: a value decoded elsewhere can be substituted for what the encoded state designates (e.g. one resolved function "
+                  "reference reused for invocations with different partial arguments)" % (name, ps), A.loc(m, m.node))
+    di = FA(ck, MC + ".decode_invocation_metadata")
+    comps = [n for n in A.walk_body(di.node) if isinstance(n, ast.ListComp) and "invocations" in A.norm(n.generators[0].iter)]
+    ok = len(comps) == 1 and A.norm(comps[0].elt) == "cls.decode_fn_reference_with_args(%s)" % A.norm(comps[0].generators[0].target)
+    ck.ob(R, di.key(None, "invocations-one-by-one"), ok, "each recorded invocation is decoded from its own state" if ok else
+          "recorded invocations are not decoded one by one with decode_fn_reference_with_args(<element>)", di.where())
 
 
 def check(ck):
@@ -189,20 +224,7 @@ def check(ck):
         ck.ob(R3, fa.key(None, "typed-args"), n == want, "all %d argument collections use %s" % (want, fn) if n == want else
               "%s uses %s for %d of %d argument collections" % (fa.fi.name, fn, n, want), fa.where())
 
-    # ---- R4
-    ev = FA(ck, MC + ".encode_versioned_data_source_key")
-    dv = FA(ck, MC + ".decode_versioned_data_source_key")
-    fm = [c for c in ev.calls("format")]
-    ok4 = len(fm) == 1 and A.const_str(A.call_recv(fm[0])) == "{}#{}" and [A.norm(a) for a in fm[0].args] == ["content_key.key", "content_key.version"]
-    ck.ob(R4, ev.key(None, "join"), ok4, "key#version" if ok4 else "versioned keys are not written as '{}#{}'.format(key, version)", ev.where())
-    rf = [c for c in dv.calls("rfind")]
-    ok5 = len(rf) == 1 and A.const_str(rf[0].args[0]) == "#" and not dv.calls("find") and not dv.calls("split")
-    ctor = [c for c in dv.calls("VersionedDataSourceKey")]
-    ok5 = ok5 and len(ctor) == 1 and A.norm(A.kwarg(ctor[0], "key")) == "state[0:hash_index]" and A.norm(A.kwarg(ctor[0], "version")) == "state[hash_index + 1:]"
-    ck.ob(R4, dv.key(None, "split-last"), ok5, "split at the last '#': the key part may itself contain '#' (versions in qualified names)" if ok5 else
-          "versioned keys are not split at the last '#': a key containing '#' is cut in the wrong place", dv.where())
-    none_ok = any(A.norm(i.test) == "content_key is None" for i in ev.stmts(ast.If)) and any(A.norm(i.test) == "state is None" for i in dv.stmts(ast.If))
-    ck.ob(R4, ev.key(None, "none"), none_ok, "a missing content key round-trips as null" if none_ok else "None content keys are not passed through", ev.where())
+    check_versioned_key_codec(ck, R4)
 
     # ---- R5
     pairs = repo_subclass_pairs(ck)
@@ -210,3 +232,6 @@ def check(ck):
     n = check_ladder_order(ck, R5, ea, lad, pairs, "wire-encode")
     ck.need(n >= 2, "encode_arg ladder: bool/int and datetime/date not comparable (%d)" % n)
     check_typed_identity(ck, "C11.R6", ("serialization", "reference"))
+    check_enum_distinct(ck, "C11.R3")
+    check_json_bytes(ck, "C11.R3", ["storage_base.DataSourceMetadataSource.put_memento", "storage_base.DefaultCodec.JsonExceptionStrategy.encode"])
+    check_decoders_pure(ck, "C11.R2")
